@@ -65,6 +65,15 @@ func allC05Cells(seed int) []c05Cell {
 										c.OldVal = c05Value(api, seed*100003+i+9999)
 									}
 								}
+								if api == "ssnap" && (i+seed)%4 == 0 {
+									c.OldVal = "" // an existing but EMPTY standalone snapshot is still an existing snapshot
+								}
+								if api == "ssnap" && (i+seed)%7 == 0 && state == "equal" {
+									c.Val, c.OldVal = "", "was not empty"
+								}
+								if c.OldVal == c.Val {
+									c.OldVal = c.Val + "x"
+								}
 								c.Ext = []string{"", "", ".txt"}[(i+seed)%3]
 								cells = append(cells, c)
 							}
